@@ -7,7 +7,7 @@ from vlib import cargo_build, tier_n, WORK
 
 
 def _nz(d):
-    return {k: v for k, v in d.items() if not (isinstance(v, int) and v == 0 and k not in ("size", "bidi", "uni", "suni", "reset_stream", "stop_stream", "stop_after"))}
+    return {k: v for k, v in d.items() if not (isinstance(v, int) and v == 0 and k not in ("size", "bidi", "uni", "suni", "reset_stream", "stop_stream", "stop_after", "wapi", "rapi"))}
 
 
 def fam_mixed(rng, i):
@@ -161,7 +161,39 @@ def fam_forgery(rng, i):
     return _nz(p)
 
 
-FAMILIES = {"flowctl": fam_flowctl, "forgery": fam_forgery, "mixed": fam_mixed, "sink": fam_sink, "blackhole": fam_blackhole, "attack": fam_attack, "handshake": fam_handshake}
+def fam_acklimited(rng, i):
+    """bidirectional bulk transfer over a long, lossy path: both endpoints spend long periods congestion
+    limited (small windows after loss) while ack-eliciting packets keep arriving"""
+    p = {
+        "seed": rng.randrange(1, 2**40), "bidi": rng.choice([0, 1, 2]), "uni": rng.choice([1, 2]), "suni": rng.choice([1, 2, 3]),
+        "size": rng.choice([150000, 400000]), "chunk": 20000, "delay_ms": rng.choice([40, 80, 150]),
+        "drop_pm": rng.choice([30, 80, 150]), "jitter_ms": rng.choice([0, 5]), "cc": rng.choice(["cubic", "cubic", "bbr"]),
+        "faults_until_ms": rng.choice([3000, 8000]), "bh": f"{rng.choice([300, 600])}:{rng.choice([900, 1500])}:{rng.choice([1, 2])}",
+        "deadline_ms": 200000,
+    }
+    return _nz(p)
+
+
+def fam_apis(rng, i):
+    """every application-facing read/write API of the stream types (send, send_vectored, tokio and futures
+    AsyncWrite incl. write_vectored; receive, receive_vectored, tokio and futures AsyncRead with small buffers)
+    under back-pressure: small send buffers, writes larger than the free space, slow readers, data and FIN
+    buffered before the reader looks"""
+    wapi = [1, 2, 3, 4, 0, 9][i % 6]
+    rapi = [1, 2, 3, 0, 9][(i // 2) % 5]
+    p = {
+        "seed": rng.randrange(1, 2**40), "wapi": wapi, "rapi": rapi,
+        "bidi": rng.choice([1, 2]), "uni": rng.choice([0, 1]), "suni": rng.choice([0, 1]),
+        "size": rng.choice([20000, 100000, 300000]), "chunk": rng.choice([3000, 20000, 60000]),
+        "c.send_buffer": rng.choice([1000, 4000, 8000, 0]), "s.send_buffer": rng.choice([1500, 6000, 0]),
+        "rbuf": rng.choice([1, 64, 700, 9000]), "read_delay_ms": rng.choice([0, 0, 5, 30]),
+        "delay_ms": rng.choice([1, 10, 25]), "drop_pm": rng.choice([0, 0, 30]), "jitter_ms": rng.choice([0, 5]),
+        "s.bidi_remote": rng.choice([0, 0, 20000]), "faults_until_ms": 3000, "deadline_ms": 120000,
+    }
+    return _nz(p)
+
+
+FAMILIES = {"apis": fam_apis, "acklimited": fam_acklimited, "flowctl": fam_flowctl, "forgery": fam_forgery, "mixed": fam_mixed, "sink": fam_sink, "blackhole": fam_blackhole, "attack": fam_attack, "handshake": fam_handshake}
 
 
 def summarize(tr):
